@@ -23,6 +23,7 @@ type Ctx struct {
 func NewCtx(p *core.Program, tier, verif string) *Ctx {
 	c := &Ctx{P: p, Tier: tier, VerifDir: verif, cache: map[string]interface{}{}}
 	core.CondOracle = c.knownCond
+	core.NonNegFields = c.nonNegFields()
 	return c
 }
 
